@@ -19,7 +19,7 @@ RULES = {
     "request with the validators of an earlier response in the forms {ETag, W/ETag, ETag as first/middle/last member of a list with "
     "foreign tags, W/ member inside a list, '*', Last-Modified, ETag + Last-Modified}; 1..2 files; Files and Pages; both interfaces; "
     "non-trivial = a validator request that follows a modification of the same file, or a list/weak validator form",
-    "grid": "exhaustive: every (modification kind or none) x (clock advance before it) x (validator form) x Files/Pages x WSGI/ASGI as a 3-step history",
+    "grid": "exhaustive: every (modification kind or none) x (clock advance before it) x (validator form) x Files/Pages x WSGI/ASGI as a 3-step history; for the date and tag validators also with the file clock starting exactly on, and just before, a whole second",
 }
 ASSUMPTIONS = [
     "undetectable class: same size and identical mtime - a 304 is tolerated there; for Last-Modified-only validators any change whose "
@@ -49,8 +49,10 @@ def workdir():
 
 
 class World:
-    def __init__(self, nfiles):
-        self.now = T0
+    def __init__(self, nfiles, frac=None):
+        # the sub-second phase of the file clock matters to truncating comparisons: start on a whole
+        # second, just before one, or in between
+        self.now = T0 if frac is None else int(T0) + frac
         self.dir = workdir()
         self.files = {}
         vfs.clear_times(self.dir)
@@ -147,7 +149,7 @@ def do_request(world, kind, side, name, headers):
 def oracle(case) -> Result:
     r = Result()
     kind = case["kind"]
-    world = World(case.get("nfiles", 1))
+    world = World(case.get("nfiles", 1), case.get("frac"))
     names = list(world.files)
     nontrivial = False
     try:
@@ -277,7 +279,8 @@ def history_case(draw):
     ).map(list)
     ops = draw(st.lists(op, min_size=2, max_size=13))
     first = ["get", 0, draw(side), False]
-    return {"kind": draw(st.sampled_from(["files", "pages"])), "nfiles": draw(st.sampled_from([1, 1, 2])), "ops": [first] + ops}
+    return {"kind": draw(st.sampled_from(["files", "pages"])), "nfiles": draw(st.sampled_from([1, 1, 2])), "ops": [first] + ops,
+            "frac": draw(st.sampled_from([0.0, 0.0, 0.25, 0.5, 0.999]))}
 
 
 def grid_cases():
@@ -286,11 +289,14 @@ def grid_cases():
             for mod in (None, "rewrite_same", "rewrite_other", "touch", "restore_old"):
                 for dt in (0, 0.3, 0.75, 1, 2, 3600):
                     for form in FORMS:
-                        ops = [["get", 0, side, False], ["advance", dt]]
-                        if mod:
-                            ops.append([mod, 0])
-                        ops.append(["cond", 0, side, 0, form])
-                        yield {"kind": kind, "nfiles": 1, "ops": ops}
+                        for frac in (0.25, 0.0, 0.999):
+                            if frac != 0.25 and form not in ("lastmod", "both", "etag"):
+                                continue
+                            ops = [["get", 0, side, False], ["advance", dt]]
+                            if mod:
+                                ops.append([mod, 0])
+                            ops.append(["cond", 0, side, 0, form])
+                            yield {"kind": kind, "nfiles": 1, "ops": ops, "frac": frac}
 
 
 def run(rec, only=None):
